@@ -70,6 +70,8 @@ Next == /\ i <= Len(Recs)
                          [] r.k = "join.closed" -> ClosedClass(r)
                          [] r.k = "join.end" -> (IF r.leak # 0 THEN "join-leak"
                                                  ELSE IF r.late_join \in {"blocked", "alive"} THEN "join-on-stopped-base" ELSE "")
+                         [] r.k = "join.halfstopped" -> (IF r.res \in {"blocked", "alive"} THEN "join-on-stopped-base"
+                                                         ELSE IF r.after > r.dst_closed THEN "join-leak" ELSE "")
                          [] r.k = "join.error" -> "join-error"
                          [] OTHER -> "" IN
               IF c = "" THEN TRUE ELSE PrintT(<<"VERDICT", i, c, r>>)
